@@ -33,10 +33,26 @@ ASSUMPTIONS = [
 ]
 
 
-def member(i, n, axis, li):
+def member(i, n, axis, li, kinds='uniform'):
     '''frame i of the bus: n entries along the quilt axis, 3 along the other; columns typed int / float / str'''
     along = ['%s%d' % ('abc'[i], j) for j in range(n)]
     other = ['p', 'q', 'r']
+    if kinds == 'int-str-int' and i % 2 == 1:
+        # a member of another kind between two alike: every cell a str
+        if axis == 0:
+            cols = [U.frozen(np.array(['t%d%d%d' % (i, j, k) for j in range(n)], dtype='<U5')) for k in range(3)]
+            lays = list(U.layouts(cols))
+            sig, blocks = lays[0] if li == 0 else lays[-1]
+            return U.frame_from_blocks(blocks, n, index=along, columns=other, name='f%d' % i)
+        cols = [U.frozen(np.array(['t%d%d%d' % (i, j, k) for k in range(3)], dtype='<U5')) for j in range(n)]
+        lays = list(U.layouts(cols))
+        sig, blocks = lays[0] if li == 0 else lays[-1]
+        return U.frame_from_blocks(blocks, 3, index=other, columns=along, name='f%d' % i)
+    if kinds == 'int-str-int' and axis == 0:
+        cols = [U.frozen(np.array([100 * i + 10 * j + k for j in range(n)], dtype=np.int64)) for k in range(3)]
+        lays = list(U.layouts(cols))
+        sig, blocks = lays[0] if li == 0 else lays[-1]
+        return U.frame_from_blocks(blocks, n, index=along, columns=other, name='f%d' % i)
     if axis == 0:
         cols = [U.frozen(np.array([100 * i + 10 * j + 0 for j in range(n)], dtype=np.int64)), U.frozen(np.array([100 * i + 10 * j + 1 for j in range(n)], dtype=np.int64)),
                 U.frozen(np.array(['s%d%d' % (i, j) for j in range(n)], dtype='<U4'))]
@@ -49,11 +65,11 @@ def member(i, n, axis, li):
     return U.frame_from_blocks(blocks, 3, index=other, columns=along, name='f%d' % i)
 
 
-def make_bus(sizes, axis, li, backing):
-    frames = [member(i, n, axis, li) for i, n in enumerate(sizes)]
+def make_bus(sizes, axis, li, backing, kinds='uniform'):
+    frames = [member(i, n, axis, li, kinds) for i, n in enumerate(sizes)]
     if backing == 'memory':
         return sf.Bus.from_frames(frames, name='bus'), frames
-    path = os.path.join(workdir(), 'c19_%s_%d_%d.zip' % ('-'.join(map(str, sizes)), axis, li))
+    path = os.path.join(workdir(), 'c19_%s_%d_%d_%s.zip' % ('-'.join(map(str, sizes)), axis, li, kinds))
     if not os.path.exists(path):
         sf.Bus.from_frames(frames, name='bus').to_zip_pickle(path)
     return sf.Bus.from_zip_pickle(path, max_persist=None if backing == 'store' else 1), frames
@@ -73,6 +89,8 @@ def cases(tier):
                 for li in (0, 1):
                     for backing in sc['backings']:
                         yield ('quilt', sizes, axis, retain, li, backing)
+                        if len(sizes) >= 3 and backing == 'memory':
+                            yield ('quilt', sizes, axis, retain, li, backing, 'int-str-int')
     for first in range(len(BATCH_OPS)):
         for workers in (None,):
             yield ('batch', first)
@@ -161,12 +179,18 @@ def quilt_ops(total, nother, axis, labels_along, retain):
         ops.append((f'iter_tuple({ax})', 'iter', lambda c, ax=ax: tuple(tuple(t) for t in c.iter_tuple(axis=ax))))
         ops.append((f'iter_window_items(2,{ax})', 'window', lambda c, ax=ax: tuple(c.iter_window_items(size=2, axis=ax))))
         ops.append((f'iter_window_array(2,step2,{ax})', 'window', lambda c, ax=ax: tuple(c.iter_window_array(size=2, step=2, axis=ax))))
+        n_ax = (n_r, n_c)[ax]
+        for size in sorted({3, max(1, n_ax - 1), n_ax}):
+            if size <= n_ax:
+                ops.append((f'iter_window_array_items({size},{ax})', 'window', lambda c, ax=ax, size=size: tuple(c.iter_window_array_items(size=size, axis=ax))))
+                ops.append((f'iter_window({size},{ax})', 'window', lambda c, ax=ax, size=size: tuple(c.iter_window(size=size, axis=ax))))
     return ops
 
 
 def run_quilt(case, ctx):
-    _, sizes, axis, retain, li, backing = case
-    bus, frames = make_bus(sizes, axis, li, backing)
+    _, sizes, axis, retain, li, backing = case[:6]
+    kinds = case[6] if len(case) > 6 else 'uniform'
+    bus, frames = make_bus(sizes, axis, li, backing, kinds)
     total = sum(sizes)
     if retain:
         ref = sf.Frame.from_concat_items([(f.name, f) for f in frames], axis=axis)
@@ -174,12 +198,12 @@ def run_quilt(case, ctx):
         ref = sf.Frame.from_concat(frames, axis=axis)
     ref = ref.rename('bus')
     labels_along = [tuple(x) if retain else x for x in (ref.index if axis == 0 else ref.columns)]
-    info = dict(sizes=sizes, axis=axis, retain_labels=retain, layout=li, backing=backing)
+    info = dict(sizes=sizes, axis=axis, retain_labels=retain, layout=li, backing=backing, member_kinds=kinds)
     for name, klass, fn in quilt_ops(total, 3, axis, labels_along, retain):
-        bus, _ = make_bus(sizes, axis, li, backing)    # a fresh bus per operation: loading state must not matter, and is varied by the menu order otherwise
+        bus, _ = make_bus(sizes, axis, li, backing, kinds)    # a fresh bus per operation: loading state must not matter, and is varied by the menu order otherwise
         q = sf.Quilt(bus, axis=axis, retain_labels=retain)
         ctx.transition()
-        ctx.state((sizes, axis, retain, li, backing, name))
+        ctx.state((sizes, axis, retain, li, backing, kinds, name))
         got = outcome(lambda: fn(q))
         exp = outcome(lambda: fn(ref))
         if got == ('refused',):
@@ -233,7 +257,23 @@ BATCH_OPS = [
     ('drop[p]', lambda x: x.drop['p']),
     ('apply(double)', 'apply'),
     ('apply_items(label-len)', 'apply_items'),
+    ('apply_except(one-row-frames-fail)', 'apply_except'),
+    ('apply_items_except(label-y-fails)', 'apply_items_except'),
 ]
+DROP = object()
+
+
+def _fail_one_row(f):
+    if f.shape[0] == 1:
+        raise ValueError('one row')
+    return f * 2
+
+
+def _fail_label_y(k, f):
+    if k == 'y':
+        raise ValueError('label y')
+    return f.iloc[:, :len(k) + 1]
+
 
 
 def batch_frames():
@@ -247,6 +287,14 @@ def apply_op(op, target, is_batch, label=None):
     name, fn = op
     if fn == 'apply':
         return target.apply(lambda f: f * 2) if is_batch else target * 2
+    if fn in ('apply_except', 'apply_items_except'):
+        # a Frame for which the function raises the named exception is dropped from the result; the others are unaffected
+        if is_batch:
+            return target.apply_except(_fail_one_row, ValueError) if fn == 'apply_except' else target.apply_items_except(_fail_label_y, ValueError)
+        try:
+            return _fail_one_row(target) if fn == 'apply_except' else _fail_label_y(label, target)
+        except ValueError:
+            return DROP
     if fn == 'apply_items':
         return target.apply_items(lambda k, f: f.iloc[:, :len(k)]) if is_batch else target.iloc[:, :len(label)]
     return fn(target)
@@ -272,7 +320,10 @@ def run_batch(case, ctx):
                     if not isinstance(r, sf.Frame):
                         raise StopIteration    # a Batch holds Frames: a chain is followed only while every member is still a Frame
                     r = apply_op(op, r, False, f.name)
-                exp[f.name] = r
+                    if r is DROP:
+                        break
+                if r is not DROP:
+                    exp[f.name] = r
             except StopIteration:
                 exp_err = 'skip'
                 break
@@ -293,7 +344,7 @@ def run_batch(case, ctx):
             if bool(exp_err) != bool(got_err):
                 ctx.violation(f'batch|{"batch" if got_err else "frames"}-raise-only', **info, batch_error=got_err, frame_error=exp_err)
             continue
-        if list(got) != [f.name for f in frames]:
+        if list(got) != list(exp):
             ctx.violation('batch|labels', **info, got=list(got))
             continue
         bad = [k for k in exp if coarse(snapany(got[k])) != coarse(snapany(exp[k]))]
